@@ -2919,7 +2919,7 @@ func (a *Agent) TaskDispatch(RequestID uint32, CommandID uint32, Parser *parser.
 								ReadOne = true
 
 								if ListOnly {
-									Dir += fmt.Sprintf("%s%s\n", RootDirPath[:len(RootDirPath)-1], FileName)
+									Dir += fmt.Sprintf("%s%s\n", strings.TrimSuffix(RootDirPath, "*"), FileName)
 								} else {
 									LastModified = fmt.Sprintf("%02d/%02d/%d  %02d:%02d", LastAccessDay, LastAccessMonth, LastAccessYear, LastAccessHour, LastAccessMinute)
 									if IsDir {
